@@ -1,6 +1,6 @@
 (** Issuance LTS: F3 / F4c -- shapes of ManageSync's steps and of the steps that write a bundle. *)
 From Coq Require Import List Bool Arith Lia.
-From CM Require Import Issuance.Model Issuance.Proofs Issuance.Invariants Issuance.NoReissueTL.
+From CM Require Import Issuance.Model Issuance.Proofs Issuance.Invariants Issuance.KeyDefs.
 Import ListNotations.
 
 (** shape of ManageSync's steps after a load *)
